@@ -2,3 +2,4 @@ import Spec.Basic
 import Spec.Num
 import Spec.Ops
 import Spec.Tables
+import Spec.Poly
